@@ -1,8 +1,8 @@
 /* mpart family: multipart/form-data parser (htp_multipart.c) driven chunk by chunk.
  *   mpart <hex content-type value> <chunks> [<hex byte placed right after every chunk buffer>]
- * Every chunk is handed to htp_mpartp_parse from its own malloc(len + 1) buffer whose extra byte holds the
- * sentinel (default 00): htp_mpartp_parse reads data[len] when a boundary match completes on the last byte
- * of a chunk, and the sentinel makes that read deterministic (and visible to the model). */
+ * Without the third token every chunk is handed to htp_mpartp_parse from its own exact-size heap buffer, so that ASan
+ * sees any read of data[len] (finding F3, repaired in /repo).  With it the buffer is one byte longer and holds that byte:
+ * the parse must not depend on it (the model ignores it), so a dependence on memory behind the chunk is a disagreement. */
 #include "corr.h"
 #include "htp_multipart_private.h"
 
@@ -61,6 +61,7 @@ int op_mpart(int n, char **t) {
     long ctlen = hex_parse(t[0], &ct);
     if (ctlen < 0) return 0;
     unsigned char oob = 0;
+    int exact = (n == 2);
     if (n == 3) {
         unsigned char *ob = NULL;
         long ol = hex_parse(t[2], &ob);
@@ -87,8 +88,6 @@ int op_mpart(int n, char **t) {
         ev_len = 0;
         if (ev_buf) ev_buf[0] = 0;
         for (int i = 0; i < nc; i++) {
-            /* MPART_EXACT=1: exact-size buffer, no sentinel (lets ASan see the read of data[len]) */
-            int exact = getenv("MPART_EXACT") != NULL;
             unsigned char *b = malloc(exact ? (lens[i] ? lens[i] : 1) : lens[i] + 1);
             memcpy(b, bufs[i], lens[i]);
             if (!exact) b[lens[i]] = oob;
